@@ -573,7 +573,7 @@ SCALE = ["S1-twelve-tasks", "S2-ten-prequeued", "S3-four-restarts", "S4-two-subm
          "S8-backlog-behind-gate", "S9-restart-with-backlog", "S10-callable-kinds", "S11-failing-partial-then-chain"]
 # (pool size, deepest ladder level): with more than 3 workers even the preemption-free level (free choices when a thread blocks) has
 # 10^5 schedules for these programs, so larger pools appear only in the 4-chain program
-SCALE_SIZES = {"quick": [((1, 0), 1), ((2, 1), 1), ((3, 1), 0)], "thorough": [((1, 0), 2), ((1, 1), 2), ((2, 0), 1), ((2, 1), 1), ((3, 0), 0), ((3, 1), 0), ((3, 3), 0)]}
+SCALE_SIZES = {"quick": [((1, 0), 1), ((2, 1), 1), ((3, 1), 0)], "thorough": [((1, 0), 2), ((1, 1), 2), ((2, 0), 1), ((2, 1), 1), ((3, 1), 0), ((3, 3), 0)]}
 
 
 FAULT_PROGRAMS = {
